@@ -49,6 +49,13 @@ def gen_cases(tier, seed):
         names = [NAMES[i] for i in rng.permutation(len(NAMES))[:U]]
         eqn = [ENAMES[i] for i in rng.permutation(len(ENAMES))[:E]]
         per_u = {n: [p for p in avail if rng.integers(3) > 0] for n in names}
+        if k % 9 in (3, 4, 5):
+            # partial specifications and no observation anywhere: some unknowns carry one constraint each, the
+            # others none at all (no observation part in the batch)
+            U = max(U, 2)
+            names = [NAMES[i] for i in rng.permutation(len(NAMES))[:U]]
+            non_obs = [p for p in avail if p != "obs"]
+            per_u = {n: ([non_obs[(k + i) % len(non_obs)]] if i % 2 == 0 else []) for i, n in enumerate(names)}
         cases.append(dict(kind=kind, d=0 if kind == "ode" else int(rng.integers(1, 3)), E=E, U=U, names=names,
                           eqnames=eqn, per_u=per_u, weights=["scalar", "dict", "default"][int(rng.integers(3))],
                           obs_src=["hand", "multi"][int(rng.integers(2))], B=int(rng.integers(1, 7)),
